@@ -20,9 +20,11 @@ UTC = datetime.timezone.utc
 CALLS = [("profile", "dryrun"), ("profile", "normal")] + [(c, m) for c in ("statements", "accounts", "tax") for m in ("dryrun", "skip_profile", "normal")]
 # statement kinds the profile may not list (closing statements, credit card): they too go to an advertised URL
 CALLS += [("stmtend", "normal"), ("ccstmt", "normal")]
+# a statement request without any account (what `ofxget stmt` sends, after a warning, when none is configured)
+CALLS += [("emptystmt", "normal")]
 # "timeout": a normal call during which the server accepts the request of that kind and then never answers
 CALLS += [(c, "timeout") for c in ("profile", "statements", "accounts", "tax")]
-WIREKIND = {"stmtend": "statements", "ccstmt": "statements"}
+WIREKIND = {"stmtend": "statements", "ccstmt": "statements", "emptystmt": "statements"}
 BANK_ONLY = "other-path-bank-only"
 
 
@@ -42,12 +44,12 @@ class System:
 
     # -- configuration ----------------------------------------------------------------------
     def client_cfg(self, who):
-        a = dict(url="http://ofx.bank-a.example/ofx", org="ORGA", fid="1", userid="alice-user", password="pwA-s3cr3t!", useragent="UA-A", version=203, close=True, clientuid="CUID-A")
+        a = dict(url="http://ofx.bank-a.example/OFX/Srv.dll", org="ORGA", fid="1", userid="alice-user", password="pwA-s3cr3t!", useragent="UA-A", version=203, close=True, clientuid="CUID-A")
         if who == "A":
             return a
         if self.pair == "same-server":
             return dict(a, userid="bob-user", password="pwB-0ther?", useragent="UA-B", version=102, close=False, clientuid=None)
-        return dict(url="https://ofx.bank-b.example/b/ofx", org="ORGB", fid="2", userid="bob-user", password="pwB-0ther?", useragent="UA-B", version=160, close=True, clientuid=None)
+        return dict(url="https://ofx.bank-b.example/b/Ofx?Tenant=B", org="ORGB", fid="2", userid="bob-user", password="pwB-0ther?", useragent="UA-B", version=160, close=True, clientuid=None)
 
     def service_url(self, cfg):
         if self.advertise == "same":
@@ -157,6 +159,8 @@ class System:
                         ret = cl.request_statements(cfg["password"], StmtRq(acctid="111", accttype="CHECKING"), **kw)
                     elif call == "stmtend":
                         ret = cl.request_statements(cfg["password"], StmtEndRq(acctid="111", accttype="CHECKING"), **kw)
+                    elif call == "emptystmt":
+                        ret = cl.request_statements(cfg["password"], **kw)
                     elif call == "ccstmt":
                         ret = cl.request_statements(cfg["password"], CcStmtRq(acctid="4111"), **kw)
                     elif call == "accounts":
@@ -359,8 +363,8 @@ def run(ctx):
         "depth_bound": depth,
         "max_depth_with_new_state": md,
         "rule": ("16 of the 30" if ctx.quick else "all 30") + " closed systems = profile advertising {same URL, other path for a banking-only profile without closing statements, other host, a different URL per service, a server that re-sends its profile with an unchanged date but an alternating service URL} x server cookie policy {none, first response, every response} x second client "
-        "{same server, other server}; per system BFS over all event sequences (34 events: 2 clients x {profile: dryrun/normal; statements, accounts, tax: dryrun/skip_profile/"
-        "normal; closing-statement and credit-card statement requests: normal; each of the four kinds with a server that takes the request and never answers}) to the depth bound, states de-duplicated on (both cookie jars, cached profile files, server cookie flags) - every field future requests can depend on; every "
+        "{same server, other server}; per system BFS over all event sequences (36 events: 2 clients x {profile: dryrun/normal; statements, accounts, tax: dryrun/skip_profile/"
+        "normal; closing-statement, credit-card and empty statement requests: normal; each of the four kinds with a server that takes the request and never answers}) to the depth bound, states de-duplicated on (both cookie jars, cached profile files, server cookie flags) - every field future requests can depend on; every "
         "transition executes the real OFXClient against the scripted server and checks that event's HTTP exchanges against the model (count, method, URL, headers, anonymous vs "
         "real credentials, exact cookie set, returned bytes)",
         "exhaustive": True,
